@@ -59,18 +59,23 @@ CLAIMED.update({
               "form is never longer than the input, non-shrinking output is stored raw byte-for-byte, shrinking output is method byte + payload. "
               "Every (payload size, true size) pair the compressor can emit for sizes up to 2 MiB (100 MiB thorough) is accepted by "
               "validate_decompression_operation under the default limits, per method selector, assuming only the format-level ratio ceiling of "
-              "the codec. RLE decoder equals a reference decoder (C08)."),
-        design_ref="DESIGN.md section 4, C03",
+              "the codec. RLE decoder equals a reference decoder (C08). The sparse codec itself - real encoder into real decoder - is "
+              "decided on a derived copy of sparse.rs (Vec<u8> replaced by a bounded-array model, regenerated from the sources on every run): "
+              "decompress(compress(x), len) == x, header == length, stored form within the encoder's own worst-case bound, for EVERY input of "
+              "1..=5 bytes (8 thorough) and, thorough, for 138-byte inputs whose literal run crosses the format's 0x80/0x81/0x82 boundaries."),
+        design_ref="DESIGN.md sections 0.8 and 4, C03",
         note=("Trusted: the codec abstraction. Known finding KF-C03-ratio (fixed 1000:1 ratio test rejects the library's own output, e.g. zlib of "
-              "2 MiB zeros) is excluded by assumption and witnessed. Outside: round trips through the real zlib/bzip2/LZMA/PKWare/Huffman/sparse "
-              "codecs (external crates or Vec-growing loops that exceed CBMC's reach: sparse::compress at length 3 timed out at 15 min), ADPCM "
-              "length/interleave beyond decoder totality."),
+              "2 MiB zeros) is excluded by assumption and witnessed. Trusted for the sparse codec: the bounded-array model of Vec<u8> "
+              "(harness/env/bvec.rs; the function bodies are the repository's text). Outside: round trips through the real "
+              "zlib/bzip2/LZMA/PKWare/Huffman codecs (external crates or table-driven loops that exceed CBMC's reach), sparse inputs of 9..137 "
+              "bytes and beyond 138, ADPCM length/interleave beyond decoder totality."),
     ),
     "C05": dict(
         text=("Per parser kernel, for ALL byte contents within the bound: value or error, no panic, no arithmetic overflow, no out-of-bounds "
               "index, loops bounded (unwinding assertions). Kernels: MPQ header parse (4 versions, truncated too) and header discovery "
               "(termination), security validators and their accept-postconditions, classic hash/block table decoders and lookup, patch header "
-              "and BSD0 applier on hostile headers, ADPCM decoder (12-byte inputs), RLE decoder, DBC/WDB2/WDB5 header parsers and string-block "
+              "and BSD0 applier on hostile headers, ADPCM decoder (12-byte inputs), RLE decoder, sparse decoder (thorough), BLP bounds helpers and (thorough) "
+              "parse_dxtn on hostile headers, DBC/WDB2/WDB5 header parsers and string-block "
               "lookups; plus the per-format parser kernels registered by the format properties (C13-C16, C18)."),
         design_ref="DESIGN.md section 4, C05",
         note=("Outside: whole-file opens (Archive::open, parse_m2, parse_adt, parse_wmo) - out of CBMC's reach even for one symbolic header "
@@ -178,10 +183,13 @@ CLAIMED.update({
               "other header bytes, M2Header::new/convert; every record type whose size M2Model::write hard-codes (sequence, bone, vertex, texture, "
               "material, attachment, event, light, camera) writes exactly that many bytes (constants extracted from model.rs at run time) and "
               "parse(write(r)) == r; skin headers/records and one-submesh / one-batch skins; anim records and sections; M2Model::write of small "
-              "models: header size, every (count, offset) pair, section order and file length against the real header parser."),
-        design_ref="DESIGN.md section 4, C13; harness/m2/NOTES.md",
+              "models: header size, every (count, offset) pair, section order and file length against the real header parser; the writer's "
+              "sequence-size rule (operator and threshold extracted too) for every legacy version number; the old-offset -> new-offset "
+              "relocation step of preserved bone key-frame data for all track shapes and all maps of <= 3 entries."),
+        design_ref="DESIGN.md sections 0.8 and 4, C13; harness/m2/NOTES.md",
         note=("Fifteen open findings (KF-C13-*) are excluded by explicit assumptions in the main harnesses and witnessed each run. Outside: "
-              "M2Model::parse as a whole, models with texture/attachment/camera/light tracks (14 GB), preserved key-frame relocation (HashMap), "
+              "M2Model::parse as a whole, models with texture/attachment/camera/light tracks (14 GB), collection and layout of preserved key-frame data (only the bone "
+              "relocation step is decided, on an association-list model of the HashMap), "
               "emitters, MD21 chunked files, whole-model version conversion."),
     ),
 })
